@@ -53,13 +53,18 @@ ASSUMPTIONS = ["would-block / timeout conditions are injected on sockets only: p
                "a reader still running after the writer thread has written everything and closed is judged a violation "
                "(all data was available); any other missed watchdog is inconclusive"]
 SHARDS = {"quick": 1, "thorough": 16}
-MIN_DISTINCT = {"quick": 400, "thorough": 5000}
+MIN_DISTINCT = {"quick": 4000, "thorough": 50000}
 
 HDR = 5
 MiB = 1 << 20
 SMALL = [0, 1, 2, 100, 2999, 3000, 3001]
 LARGE = [63993, 63994, 63995, 64000, 64001, 127999, 128000, 128001]
 KINDS = ["rnd", "rep", "nl", "hdr"]
+
+
+def excname(e):
+    t = type(e)
+    return t.__name__ if t.__module__ == "builtins" else "%s.%s" % (t.__module__, t.__name__)
 
 
 class HarnessAbort(BaseException):
@@ -328,7 +333,7 @@ def read_all(chan, link_or_none, n_max):
             outcome, detail = "loops", str(e)
             break
         except Exception as e:
-            outcome, detail = type(e).__name__, repr(e)[:200]
+            outcome, detail = excname(e), repr(e)[:200]
             break
         got.append(d)
         if link_or_none is not None:
@@ -416,7 +421,7 @@ def sender_pass(plan, link):
             err = (i, "loops", str(e))
             break
         except Exception as e:
-            err = (i, type(e).__name__, repr(e)[:200])
+            err = (i, excname(e), repr(e)[:200])
             break
         ends.append(len(link.buf))
         calls_end.append(link.n_send_calls)
@@ -462,7 +467,7 @@ def drive_frag(ctx, plan, table):
         except HarnessAbort as e:
             state["err"] = ("loops", str(e))
         except Exception as e:
-            state["err"] = (type(e).__name__, repr(e)[:200])
+            state["err"] = (excname(e), repr(e)[:200])
         if state["err"]:
             link.writer_closed = True
             return False
@@ -559,7 +564,7 @@ def drive_epipe(ctx, plan, cap, k, err_no, table):
             ctx.violation("C05/epipe/writer-loops", str(e), wit)
             break
         except Exception as e:
-            failed, exc = i, type(e).__name__
+            failed, exc = i, excname(e)
             ctx.violation("C05/epipe/wrong-exception/%s" % exc, "Channel.send raised %s instead of EOFError when send failed with %s: %r"
                           % (exc, name, e), wit)
             break
@@ -701,7 +706,7 @@ def drive_real(ctx, plan, table, wait):
         except EOFError as e:
             W["exc"] = ("EOFError", repr(e)[:120])
         except BaseException as e:
-            W["exc"] = (type(e).__name__, repr(e)[:200])
+            W["exc"] = (excname(e), repr(e)[:200])
         finally:
             W["closed"] = ws.closed
             try:
@@ -722,7 +727,7 @@ def drive_real(ctx, plan, table, wait):
                     R["outcome"], R["detail"] = "EOFError", repr(e)[:120]
                     break
                 except BaseException as e:
-                    R["outcome"], R["detail"] = type(e).__name__, repr(e)[:200]
+                    R["outcome"], R["detail"] = excname(e), repr(e)[:200]
                     break
             R["closed"] = rs.closed
         finally:
@@ -876,6 +881,7 @@ def run(ctx):
             table.add(n)
     ctx.extra["sizes"] = sorted(table) + [MiB]
 
+    t_sec = time.time()
     # ---- 1. no fault: sequences over the scripted socket ------------------------------------------------
     plans = []
     if first:
@@ -891,7 +897,7 @@ def run(ctx):
                                   send=[("all", "rand", "half", "m1")[(i + 2 * j) % 4], i], feed=("bulk", "lazy")[(i + j) % 2]))
         plans.append(dict(kind="frag", packets=[[MiB, "rnd", 1], [0, "rep", 0], [MiB + 1, "rep", 2]], cs=True, cr=False,
                           recv=["rand", 5, 0.3, 2], send=["rand", 5], feed="lazy"))
-    n_frag = ctx.budget(900, 400000)
+    n_frag = ctx.budget(900, 240000)
     for i in range(n_frag):
         pks = gen_packets(rng, small, large, 420000 if ctx.quick else 2200000, allow_big=not ctx.quick, zc=zc)
         total = sum(p[0] for p in pks)
@@ -905,6 +911,8 @@ def run(ctx):
         if ctx.enough():
             return
 
+    ctx.maximum("seconds_frag", round(time.time() - t_sec, 1))
+    t_sec = time.time()
     # ---- 2. cut at EVERY byte offset of short sequences ---------------------------------------------------
     n_short = ctx.budget(220, 90000)
     for i in range(n_short):
@@ -927,8 +935,10 @@ def run(ctx):
         if ctx.enough():
             return
 
+    ctx.maximum("seconds_cut_short", round(time.time() - t_sec, 1))
+    t_sec = time.time()
     # ---- 3. long sequences: cut at every write/frame boundary (+-1, header bytes) and sampled offsets -------
-    n_long = ctx.budget(110, 24000)
+    n_long = ctx.budget(110, 16000)
     n_sampled = 40 if ctx.quick else 2000
     for i in range(n_long):
         pks = gen_packets(rng, small, large, 300000, zc=zc)
@@ -964,6 +974,8 @@ def run(ctx):
         if ctx.enough():
             return
 
+    ctx.maximum("seconds_cut_long", round(time.time() - t_sec, 1))
+    t_sec = time.time()
     # ---- 4. send failing at every send call --------------------------------------------------------------
     n_ep = ctx.budget(200, 80000)
     for i in range(n_ep):
@@ -990,10 +1002,12 @@ def run(ctx):
         if ctx.enough():
             return
 
+    ctx.maximum("seconds_epipe", round(time.time() - t_sec, 1))
+    t_sec = time.time()
     # ---- 5. kernel transports -------------------------------------------------------------------------------
     big = 200000 if ctx.quick else MiB
     wait = 40 if ctx.quick else 120
-    n_real = ctx.budget(500, 160000)
+    n_real = ctx.budget(500, 32000)
     t_real = time.time()
     for i in range(n_real):
         t = ("pipe", "sockpair", "pipe", "sockpair", "tcp")[i % 5]
@@ -1009,7 +1023,7 @@ def run(ctx):
         if t == "pipe":
             plan["pipe_size"] = rng.choice((4096, 4096, None))
         else:
-            plan["reader_mode"] = ("blocking", "timeout", "nonblock")[(i // 5 + i) % 3]
+            plan["reader_mode"] = ("blocking", "timeout", "nonblock")[(i // 5 + i % 5) % 3]
         scenario = i % 4
         if scenario == 1 or scenario == 3:
             tsize = rng.choice((0, 1, 50, 3001, 64001, big))
@@ -1032,6 +1046,7 @@ def run(ctx):
             ctx.count("real_runs_skipped_for_time", n_real - i - 1)
             break
 
+    ctx.maximum("seconds_kernel", round(time.time() - t_sec, 1))
     c = ctx.counters
     if not c["cut_points_explored"]:
         ctx.inconclusive("no cut point was explored")
@@ -1045,6 +1060,8 @@ def run(ctx):
         ctx.inconclusive("kernel transports (pipe, socketpair) were not exercised")
     if c["real_sockpair_runs"] and not c["real_socket_short_recvs"]:
         ctx.inconclusive("the kernel never fragmented a read on the real sockets")
+    if c["real_sockpair_runs"] >= 20 and not (c["real_socket_timeouts_seen"] and c["real_socket_eagain_seen"]):
+        ctx.inconclusive("the real sockets never reported a timeout / would-block condition to the reader")
 
 
 def replay(ctx, w):
